@@ -1,11 +1,12 @@
 PROPERTY = "C13"
 LEVEL = "proof"
-LEAN_MODULES = ["CifModel.Props.C13", "CifModel.Props.C13Doc", "CifModel.Props.C13First", "CifModel.Props.C13Lines", "CifModel.Props.ReviewC13"]
+LEAN_MODULES = ["CifModel.Props.C13", "CifModel.Props.C13Doc", "CifModel.Props.C13First", "CifModel.Props.C13Lines", "CifModel.Props.C13Clean", "CifModel.Props.ReviewC13"]
 REQUIRED = ["CifModel.C13_text_pure", "CifModel.C13_no_triple", "CifModel.C13_refusal_codes", "CifModel.C13_never_silently_alters",
             "CifModel.C13_value_roundtrip", "CifModel.C13_run", "CifModel.C13_refusal_codes_doc", "CifModel.C13_pure",
             "CifModel.C13_refuses", "CifModel.C13_refuses_value", "CifModel.C13_refuses_char", "CifModel.C13_roundtrip", "CifModel.C13_output_units", "CifModel.C13_roundtrip_sample",
             "CifModel.C13_first_refused", "CifModel.C13_first_none_iff", "CifModel.C13_first_order", "CifModel.C13_first_order_written",
-            "CifModel.C13_roundtrip_nl", "CifModel.C13_line_bound_of_valid"]
+            "CifModel.C13_roundtrip_nl", "CifModel.C13_line_bound_of_valid",
+            "CifModel.C13_success_implies_clean", "CifModel.C13_cr_refused"]
 GEN = ["WriterConsts", "ErrCodes"]
 FAMILIES = ["decode", "writeval11", "write11"]
 TRUSTED_BASE = [
